@@ -159,8 +159,10 @@ InitNode == [hdrs |-> {0}, bodies |-> {0}, head |-> 0, hhead |-> 0,
              spentIdx |-> [x \in {0} |-> {}],     \* block -> set of leaves it spent (blocks applied on a winning chain)
              sums |-> {0},                 \* blocks with stored block sums
              orph |-> <<>>,                \* orphan pool in insertion order
-             tail |-> -1]                  \* body tail height (-1 = not set): set by the first stored block, moved by compaction,
+             tail |-> -1,                  \* body tail height (-1 = not set): set by the first stored block, moved by compaction,
                                            \* full blocks below it have been removed
+             hz |-> 0]                     \* rewind horizon: height of the horizon block of the last compaction; the pruned MMR
+                                           \* files can no longer be rewound below it
 
 OposLeaf(nd, c) == {p[2] : p \in {q \in nd.opos : q[1] = c}}
 
@@ -337,8 +339,8 @@ CompactNode(nd) ==
   ELSE LET H == Height(nd.head)
            arch == SatSub(H, SyncThreshold) - (SatSub(H, SyncThreshold) % ArchiveInterval)   \* txhashset_archive_header
            cutoff == IF arch < SatSub(H, Horizon) THEN arch ELSE SatSub(H, Horizon)
-       IN IF cutoff = 0 THEN nd
-          ELSE [nd EXCEPT !.tail = cutoff,
+       IN IF cutoff = 0 THEN [nd EXCEPT !.hz = SatSub(H, Horizon)]
+          ELSE [nd EXCEPT !.tail = cutoff, !.hz = SatSub(H, Horizon),
                           !.bodies = {b \in @ : Height(b) >= cutoff},
                           !.sums = {b \in @ : Height(b) >= cutoff},
                           !.spentIdx = [x \in {y \in DOMAIN nd.spentIdx : Height(y) >= cutoff} |-> nd.spentIdx[x]]]
@@ -414,18 +416,60 @@ Reopen ==
   /\ UNCHANGED tree
 
 \* the call is a no-op unless CanCompact; Next only takes it when it does something
+\* (assumption of the model, see above: no minted block forks off below the new horizon)
+ForksAbove(nd, h) == \A b \in Ids : IsAnc(b, nd.head) \/ Height(LCA(b, nd.head)) >= h
 CompactCall ==
   /\ AllMinted /\ ndel < MaxDeliveries /\ ndel > 0 /\ last.k # "Compact"
+  /\ (CanCompact(n) => ForksAbove(n, SatSub(Height(n.head), Horizon))) = TRUE   \* (= TRUE: evaluated as a state predicate, not split into sub-actions)
   /\ n' = CompactNode(n)
   /\ last' = [k |-> "Compact", b |-> 0, res |-> "ok"]
   /\ ndel' = ndel + 1
   /\ UNCHANGED tree
 
-\* Trunk block k carries the transaction (coinbase of k-4 -> pool output 200+k) iff the commitment
-\* 200+k is in Pool, so that a long trunk has spent outputs for compaction to prune.
 Compact == CompactNode(n) # n /\ CompactCall
 
-TrunkTx(k) == IF (200 + k) \in Pool /\ k >= 8 THEN [ins |-> {k - 4}, outs |-> {200 + k}, lock |-> 0] ELSE NoTx
+(* Chain::reset_chain_head(header, rewind_headers = true) - the owner API's reset: rewind the body
+   state to the fork point with the target, re-apply the target's branch from the stored bodies, then
+   set BOTH heads to the target.  An operator action: the head may lose work (HeadMaxWork and
+   HeadMonotone do not apply to it), the state must still be the replay of the new head.          *)
+ResetNode(nd, b) ==
+  IF b \notin nd.hdrs THEN [nd |-> nd, ok |-> FALSE]
+  ELSE LET fp == LCA(nd.head, b)
+           seg == Segment(fp, b)
+           st0 == [u |-> nd.u, opos |-> nd.opos, spentIdx |-> nd.spentIdx, sums |-> nd.sums, nrd |-> nd.nrd, ok |-> TRUE]
+           st1 == ImplRewindTo(st0, nd.head, fp)
+           st2 == ImplApplyFork(st1, seg, 1)
+       IN IF (\E i \in 1..Len(seg) : seg[i] \notin nd.bodies) \/ ~st2.ok THEN [nd |-> nd, ok |-> FALSE]
+          ELSE [nd |-> [nd EXCEPT !.u = st2.u, !.opos = st2.opos, !.spentIdx = st2.spentIdx, !.sums = st2.sums,
+                                  !.nrd = st2.nrd, !.head = b, !.hhead = b],
+                ok |-> TRUE]
+ResetHead(b) ==
+  /\ AllMinted /\ ndel < MaxDeliveries /\ ndel > 0
+  /\ Height(LCA(n.head, b)) >= n.hz
+  /\ LET r == ResetNode(n, b) IN
+       /\ n' = r.nd
+       /\ last' = [k |-> "ResetHead", b |-> b, res |-> IF r.ok THEN "ok" ELSE "reject"]
+  /\ ndel' = ndel + 1
+  /\ UNCHANGED tree
+
+(* A read-only rewind of the body state to an ancestor of the head that is not below the rewind
+   horizon (what txhashset_read, the segmenter and fork processing rely on): the rewound UTXO state
+   is the replay of that ancestor, so its roots validate against the ancestor's header.           *)
+RewoundU(nd, b) == ImplRewindTo([u |-> nd.u, opos |-> nd.opos, spentIdx |-> nd.spentIdx, sums |-> nd.sums, nrd |-> nd.nrd, ok |-> TRUE],
+                                nd.head, b).u
+Probe(b) ==
+  /\ AllMinted /\ ndel < MaxDeliveries /\ ndel > 0
+  /\ IsAnc(b, n.head) /\ Height(b) >= n.hz
+  /\ last' = [k |-> "Probe", b |-> b, res |-> IF RewoundU(n, b) = Replay(b) THEN "ok" ELSE "reject"]
+  /\ ndel' = ndel + 1
+  /\ UNCHANGED <<tree, n>>
+
+\* Trunk block k carries the transaction (coinbase of k-4 and the pool output 200+k-4 -> pool output
+\* 200+k) iff the commitment 200+k is in Pool, so that in a long trunk nearly every old leaf is spent
+\* and compaction really prunes (a leaf is only removed together with its spent sibling).
+TrunkTx(k) == IF (200 + k) \in Pool /\ k >= 8
+              THEN [ins |-> {k - 4} \cup (IF (200 + k - 4) \in Pool /\ k >= 12 THEN {200 + k - 4} ELSE {}), outs |-> {200 + k}, lock |-> 0]
+              ELSE NoTx
 TrunkTree == [x \in 0..Trunk |-> [parent |-> IF x = 0 THEN 0 ELSE x - 1, height |-> x, diff |-> 1, tx |-> TrunkTx(x), flag |-> "ok"]]
 RECURSIVE TrunkNode(_)
 TrunkNode(k) == IF k = 0 THEN InitNode ELSE ProcBlock(TrunkNode(k - 1), k).nd
@@ -480,6 +524,8 @@ NrdInv == /\ \A k \in NrdKeys : n.nrd[k] = NrdHist(n.head, k)
 
 \* C06: a failing call, or one that does not move the head, leaves the best-chain state alone
 RejectLeavesState == [][(n'.head = n.head /\ last'.k # "Compact") => BestProj(n') = BestProj(n)]_vars
+\* rewinding inside the horizon restores the replay of the ancestor (C02, C08)
+RewindInv == \A b \in Ids : (IsAnc(b, n.head) /\ Height(b) >= n.hz) => RewoundU(n, b) = Replay(b)
 \* C08 (chain level): compaction changes nothing but the stored bodies / their sums and spent index
 CompactIsStutter == [][last'.k = "Compact" =>
                          /\ n'.head = n.head /\ n'.hhead = n.hhead /\ n'.u = n.u /\ n'.opos = n.opos
@@ -502,5 +548,5 @@ OrphansRetried == \A i \in 1..Len(n.orph) : LET b == n.orph[i] IN ~(Parent(b) \i
 
 TypeOK == /\ n.head \in Ids /\ n.hhead \in Ids
           /\ n.hdrs \subseteq Ids /\ n.bodies \subseteq n.hdrs
-          /\ n.tail \in -1..Height(n.head)
+          /\ n.tail \in Int /\ n.tail >= -1 /\ n.hz \in 0..Height(n.head)
 =============================================================================
